@@ -221,8 +221,13 @@ double now_s()
 bool known_matches( const Known& k, const std::string& property, const std::string& key )
 {
     if ( k.property != property ) return false;
-    if ( !k.key.empty() && k.key.back() == '*' )
-        return key.compare( 0, k.key.size() - 1, k.key, 0, k.key.size() - 1 ) == 0;
+    // 'text*' matches a prefix, '*text' a suffix, '*text*' text anywhere
+    const bool tail = !k.key.empty() && k.key.back() == '*';
+    const bool head = k.key.size() > 1 && k.key.front() == '*';
+    const std::string text = k.key.substr( head ? 1 : 0, k.key.size() - ( head ? 1 : 0 ) - ( tail ? 1 : 0 ) );
+    if ( head && tail ) return key.find( text ) != std::string::npos;
+    if ( tail ) return key.compare( 0, text.size(), text ) == 0;
+    if ( head ) return key.size() >= text.size() && key.compare( key.size() - text.size(), text.size(), text ) == 0;
     return k.key == key;
 }
 
